@@ -71,6 +71,7 @@ ENV_BUGS = {'tmoleak': ('socket', 'life', {'NoSpuriousFailure'}),            # a
             'eofclosesstdin': ('popen', 'life', {'NoSpuriousFailure'}),      # EOF of the child's output closes the sending side too
             'logafterwrite': ('socket', 'life', {'FailedSendLogged'}),       # the send log is written after the write
             'latenotlogged': ('fd', 'await', {'LogReadExact', 'LogAllInterleaved'})}   # output arriving between two awaited calls is not logged
+_WL = [0]          # which iterable form the next writelines() call gets
 SEND_OPS = {'Send': 'send', 'SendLine': 'sendline', 'Write': 'write', 'WriteLines': 'writelines'}
 ENV_OPS = {'ReadTimeout', 'HalfCloseEof', 'PeerGone', 'CloseSelf', 'Stalled', 'ARead', 'ACancel', 'ATimeout', 'Arrive'}
 OWNER = {'C08': ('C08:',), 'C11': ('C11:',)}
@@ -397,7 +398,13 @@ def exec_step(rig, label, succ, tag, ctlname, tamper=None, env=None):
                 classes = [args[0]]
             vals = [inst.P(p, j + 1) for j, p in enumerate(classes)]
             is_big = 'big' in classes
-            call = (lambda: getattr(c, sop)(vals)) if sop == 'writelines' else (lambda: getattr(c, sop)(vals[0]))
+            if sop == 'writelines':
+                # "any iterable object producing strings": the same items as a list, a tuple, a generator, an iterator
+                _WL[0] += 1
+                shape = [list, tuple, (lambda v: (x for x in v)), iter][_WL[0] % 4]
+                call = lambda: c.writelines(shape(vals))
+            else:
+                call = lambda: getattr(c, sop)(vals[0])
             if stalled:
                 # the user's socket timeout is short and the peer does not read: sendall() gives up part-way
                 rig.sock.settimeout(STALL_TIMEOUT)
